@@ -27,7 +27,7 @@ outcomes (where the call ends):
   closed      on_close_position() raises (strategy had read self.metrics) -> a trade was closed
   terminate   terminate() raises                           -> after the simulation loop, before the outputs
 """
-import copy, hashlib, sys, traceback
+import copy, hashlib, os, sys, traceback
 import numpy as np
 
 T0 = 1609459200000
@@ -444,6 +444,10 @@ def run_item(item):
     pre = sorted(k for k in jh.CACHED_CONFIG if k.startswith(('env.exchanges', 'env.data', 'app.')))
     if pre or 'jesse.services.api' in sys.modules:
         return {'dirty_parent': pre + (['api'] if 'jesse.services.api' in sys.modules else [])}
+    # every process gets its own working directory (jesse writes storage/ there; concurrent children sharing one
+    # directory race in jh.make_directory); the calls of one history share it, as they would in reality
+    import tempfile
+    os.chdir(tempfile.mkdtemp(prefix='c11-', dir=os.getcwd()))
     pool = ArgPool(item.get('seed', 0))
     excs, calls = [], []
     for i, a in enumerate(item['hist']):
